@@ -10,11 +10,12 @@ def load(p):
                 r = json.loads(l); r["mutant"] = r["mutant"].split("/")[-1]; out[r["mutant"]] = r
     return out
 base = load(os.path.join(ROOT, "seeded", "RESULTS.baseline.jsonl"))
-for extra in ("RESULTS.baseline.round2.jsonl", "RESULTS.baseline.round2b.jsonl", "RESULTS.baseline.round3.jsonl", "RESULTS.baseline.round3b.jsonl", "RESULTS.baseline.round7.jsonl"):
+for extra in ("RESULTS.baseline.round2.jsonl", "RESULTS.baseline.round2b.jsonl", "RESULTS.baseline.round3.jsonl", "RESULTS.baseline.round3b.jsonl", "RESULTS.baseline.round7.jsonl", "RESULTS.baseline.round8.jsonl"):
     base.update(load(os.path.join(ROOT, "seeded", extra)))
 final = load(os.path.join(ROOT, "seeded", "RESULTS.jsonl"))
 final_target = load(os.path.join(ROOT, "seeded", "RESULTS.final-target.jsonl"))
 final_target.update(load(os.path.join(ROOT, "seeded", "RESULTS.final-target.round7.jsonl")))
+final_target.update(load(os.path.join(ROOT, "seeded", "RESULTS.final-target.round8.jsonl")))
 for d in sorted(os.listdir(os.path.join(ROOT, "seeded"))):
     mp = os.path.join(ROOT, "seeded", d, "meta.json")
     if not os.path.exists(mp):
